@@ -105,7 +105,11 @@ Checks(e) ==
              st.call.failed => /\ outcome = "SpiNNakerRouterError"
                                /\ st.call.cur \in ChipsOf(after)
                                /\ SeqSet(Third(after, st.call.cur)) = Pre(st.call.cur),
-         RouterErrorOnlyOnAllocFailure |-> outcome = "SpiNNakerRouterError" => st.call.failed,
+         \* "raises the router error ... when the block cannot be allocated": the machine said so, or the table is
+         \* longer than any router (1024 entries) so that no machine could - asking first is not required
+         RouterErrorOnlyOnAllocFailure |-> outcome = "SpiNNakerRouterError" =>
+                                               \/ st.call.failed
+                                               \/ \E ii \in 1..Len(st.call.want) : Len(st.call.want[ii][3]) > 1024,
          InstalledExactlyGiven |->
              st.call.mode = "load" =>
                /\ ChipsOf(after) = ChipsOf(st.call.want) /\ ListedOnce(after)
